@@ -739,12 +739,52 @@ def r6_issue_locations(ctx, sym):
     ctx.floor('R6', 'TIFA issue classes with a location', n, 15)
 
 
+def r7_unnamed_caller(ctx, sym):
+    ctx.rule('R7', "a call used as a statement whose caller is not a name - `\"abc\".upper()`, `(1).bit_length()` - is "
+                   "in the introductory subset: identify_caller returns None for it (by its own docstring), and "
+                   "visit_Expr hands that None to unused_returned_value. The issue's constructor is executed abstractly "
+                   "with name None and a string name under the methods of every Formatter class pedal ships: it does "
+                   "not raise (a raise here turns the whole analysis into an internal failure)")
+    from .. import symexec
+    fmod = ctx.repo.module('pedal.tifa.feedbacks')
+    init = fmod.func('unused_returned_value.__init__')
+    ctx.analysed_function(fmod, init)
+    fm = sym.find_class('pedal.core.formatting', 'Formatter')
+    classes = sorted(sym.subclasses(fm), key=lambda c: (c.module.name, c.name))
+    ctx.floor('R7', 'Formatter classes shipped', len(classes), 5)
+    for ci in classes:
+        fmt = symexec.self_obj(ci.module, ci.name)
+        finit = sym.method(ci, '__init__')
+        if finit is not None:
+            _, raised0 = symexec.run(symexec.new_fd(sym, ci.module), finit[1], [Obj('report')], bound_self=fmt,
+                                     what='%s.__init__' % ci.name)
+            ctx.require(raised0 is None, "%s(report) constructs" % ci.name)
+        for name in (None, 'helper'):
+            rec = symexec.Recorder()
+            report = Obj('report', format=fmt)
+            me = symexec.self_obj(fmod, 'unused_returned_value')
+            sup = Obj('super')
+            symexec.method(sup, '__init__', rec.stub('super().__init__'))
+            fd = symexec.new_fd(sym, fmod, calls={'super': lambda *a: sup})
+            _, raised = symexec.run(fd, init, [Obj('location', line=1), name, 'method', Obj('StrType')],
+                                    {'report': report}, bound_self=me, what='unused_returned_value.__init__')
+            ctx.check(raised is None and len(rec.named('super().__init__')) == 1, 'R7',
+                      'unused_returned_value[name=%r,%s]' % (name, ci.name), fmod, getattr(raised, 'node', None) or init,
+                      "with caller name %r and formatter %s the issue's constructor %s" % (
+                          name, ci.name, 'raises %s (%s)' % (raised.kind, raised.detail) if raised is not None
+                          else 'does not reach Feedback.__init__ exactly once'),
+                      "set_formatter(%s) (BlockPy's default is HtmlFormatter); tifa_analysis() on the one-line program "
+                      "\"abc\".upper(): success is False, 'NoneType' object is not subscriptable" % ci.name,
+                      construct='%s.name' % ci.name)
+
+
 def run(ctx):
     sym = Symbols(ctx.repo)
     r5b_builtin_lookup_copies(ctx, sym)
     r5c_constructor_entries_are_copied(ctx, sym)
     r6_issue_locations(ctx, sym)
     locate_positionless_rule(ctx, sym, 'R6')
+    r7_unnamed_caller(ctx, sym)
     # R6s: the offset locate() adds inside a section is the number of lines CPython counts before it (an offset that is
     # too large puts the issue's line outside the analysed source); shared with C17.R3
     from .c12 import section_offsets
